@@ -34,6 +34,7 @@ type lrCase struct {
 	NoLibs  bool     `json:"nolibs"`
 	MaxEv   int      `json:"maxev"`
 	Gor     bool     `json:"gor"` // report the number of goroutines left behind by the case
+	Trace   string   `json:"trace"` // "", "ctx", "co", "all": record a hook trace (verif builds)
 	Raw     bool     `json:"raw"` // call the chunk with rt.Call directly instead of inside Thread.CallContext
 	GorExp  *int     `json:"gor_expect"` // if set, wait (up to 3 s) for that number before reporting
 }
@@ -53,6 +54,7 @@ type lrOut struct {
 	UsedMem uint64        `json:"used_mem,omitempty"`
 	Gor     *int          `json:"goroutines_left,omitempty"`
 	Stdout  string        `json:"stdout,omitempty"`
+	Trace   []traceEv     `json:"trace,omitempty"`
 }
 
 // valueCodec turns Lua values into JSON, giving reference values an identity
@@ -157,6 +159,13 @@ func runLuaCase(c *lrCase) (o lrOut) {
 	if !c.NoLibs {
 		cleanup = lib.LoadAll(r)
 	}
+	tr := startTrace(c.Trace, r)
+	defer func() {
+		if tr != nil {
+			settledGoroutines() // let dying coroutine goroutines log their last events
+		}
+		o.Trace = tr.stop()
+	}()
 	maxEv := c.MaxEv
 	if maxEv == 0 {
 		maxEv = 10000
@@ -165,6 +174,7 @@ func runLuaCase(c *lrCase) (o lrOut) {
 		if len(o.Events) < maxEv {
 			o.Events = append(o.Events, vc.encAll(gc.Etc()))
 		}
+		tr.host("host", t.Runtime)
 		return gc.Next(), nil
 	}, "emit", 0, true)
 	emitFn.SolemnlyDeclareCompliance(rt.ComplyCpuSafe | rt.ComplyMemSafe | rt.ComplyIoSafe | rt.ComplyTimeSafe)
@@ -309,6 +319,7 @@ func luaRun(args []string) int {
 				o.Gor = &left
 			}
 			emit(o)
+			out.Flush() // so that a later crash of the process is attributed to the right case
 		case <-time.After(time.Duration(to) * time.Millisecond):
 			emit(lrOut{ID: c.ID, Timeout: true, Events: []interface{}{}})
 			out.Flush()
